@@ -112,6 +112,18 @@ CHECKS = {
         "Programs with fall_back_on_default metadata are excluded.",
         design="4/C14",
     ),
+    "C10": dict(
+        text="Object types whose validators (dependencies direct, through methods and properties, field= with implicit "
+        "discard, explicit discard of unrelated fields, raise vs yield with paths and get_alias, inheritance, all-default "
+        "dependencies) append their name to a log and fail when a symbolic field value crosses a threshold. For every "
+        "datum within bounds (each field absent / valid / invalid, extra keys) the call log must equal the reference "
+        "run / skip / discard model in declaration order, the merged errors must equal structural errors plus validator "
+        "errors under the right aliases, the call must return iff there is no error, and it must terminate "
+        "(RecursionError or any other exception is a violation).",
+        note="The reference dependency sets are written by hand from the documentation, independently of the AST finder. "
+        "Programs are a fixed family of 6 classes x 3 option sets; validators only read fields.",
+        design="4/C10",
+    ),
 }
 
 NOT_YET = "check not built yet at this commit (work in progress, see DESIGN.md section 4)"
